@@ -34,6 +34,9 @@ type connPlan struct {
 	segs         []segPlan
 	fin          int // -1: no FIN; n >= 0: FIN carrying n bytes
 	forceISS     int64
+	lastAck      bool   // after the FIN exchange the client acknowledges the server's FIN (the state is then removed)
+	finSeq       uint32 // sequence number of the server's FIN
+	finSeen      bool
 	carry        int // 1: steer the send sequence space, 2: the IP id, 3: both, so that the ACK of the first data segment has a checksum sum whose fold carries again
 	// client state
 	phase   int
@@ -277,6 +280,9 @@ func (r *canRun) step(c *connPlan) {
 		}
 		for _, t := range txs {
 			back(t, "ack")
+			if t.flags&0x01 != 0 {
+				c.finSeq, c.finSeen = t.seq, true // the handler closed: the server's FIN
+			}
 		}
 		r.checkEvents(c, evs, expectEv)
 		c.phase++
@@ -298,11 +304,25 @@ func (r *canRun) step(c *connPlan) {
 			if t.ack == want && t.flags&0x10 != 0 {
 				answered = true
 			}
+			if t.flags&0x01 != 0 {
+				c.finSeq, c.finSeen = t.seq, true
+			}
 		}
 		if !answered {
 			r.viol("fin-not-answered", fmt.Sprintf("isn=%d sent=%d want ack %d got %+v", c.isn, len(c.sent), want, txs))
 		}
 		r.checkEvents(c, evs, expectEv)
+		c.phase++
+		c.done = !(c.lastAck && c.finSeen)
+	case c.lastAck && c.finSeen && c.fin >= 0 && c.phase-2 == len(c.segs)+1: // the client's ACK of the server's FIN
+		r.frame(mk(c.isn+1+uint32(len(c.sent))+1, c.finSeq+1, 0x10, nil), false, c.peer, my, c.sport, c.dport, false)
+		c.phase++
+	case c.lastAck && c.finSeen && c.fin >= 0 && c.phase-2 == len(c.segs)+2: // ... and a reset: the state is deleted
+		n0 := r.lab.c.VerifStateCount()
+		r.frame(mk(c.isn+1+uint32(len(c.sent))+1, c.finSeq+1, 0x14, nil), false, c.peer, my, c.sport, c.dport, false)
+		if n1 := r.lab.c.VerifStateCount(); n1 != n0-1 {
+			r.viol("closed-connection-not-released", fmt.Sprintf("%d states before the reset of the closed connection, %d after", n0, n1))
+		}
 		c.phase++
 		c.done = true
 	default:
@@ -684,6 +704,25 @@ func genC14(tier string, seed uint64) {
 				runScenario(1, []*connPlan{plan(p1, 41000, 8080, 1<<32-3, sp, fin, iss)}, nil, nil)
 			}
 		}
+	}
+	// 2e. a connection that is closed completely (its state removed) while connections opened after it go on: the
+	// table then has a hole in front of them
+	for vi, order := range [][]int{
+		{0, 1, 0, 0, 0, 0, 0, 1, 1, 1, 1},          // A opens, B opens, A runs to its removal, B goes on
+		{0, 1, 2, 1, 1, 1, 1, 1, 0, 2, 0, 2, 0, 2}, // the middle one of three is removed
+		{0, 0, 1, 0, 0, 0, 1, 0, 1, 1, 1},
+		{0, 1, 0, 1, 0, 0, 0, 0, 1, 1, 2, 2, 2, 2, 2}, // a third connection opened into the hole afterwards
+	} {
+		a := plan(p1, 46000+uint16(vi), 8080, isnBoundary[vi%len(isnBoundary)], []segPlan{{3, true}}, 0, -1)
+		a.lastAck = true
+		b := plan(p2, 46100+uint16(vi), 8080, 77, []segPlan{{2, false}, {4, true}}, 1, -1)
+		c3 := plan(p1, 46200+uint16(vi), 12345, 5, []segPlan{{5, true}}, 0, -1)
+		conns := []*connPlan{a, b, c3}
+		if vi == 1 {
+			b.lastAck = true
+			a.lastAck = false
+		}
+		runScenario(1, conns, order, nil)
 	}
 	// 2a. decoded ports whose handler reports the first bytes read (telnet, https, nbt, smb, mssql, redis)
 	for di, dp := range []uint16{23, 443, 139, 445, 1433, 6379} {
